@@ -34,7 +34,7 @@ From FB.Spec Require Import Prog.
 From FB.Model Require Import Types Monad CreatedFiles SimpleOps Builder Persist Build Run Frame.
 From FB.Spec Require Import Ref Oracle Faithful.
 From FB.Model Require Import Core CoreOracle CoreCache.
-From FB.Proofs Require Import ReplayLaws BuildFileLaws FrameLaws CleanLaws CoreLaws2 CoreLaws5 CoreLaws6 CoreLaws7 CoreNextDefs CoreNextThm ViewDefs ViewInit ViewXDefs ViewXRun ViewR2 ViewR3 ViewK3 ViewK4 ViewK8 HashMemoInv HashMemoRun SimA0 SimAMain SimC0 SimC12 SimC13 SimD4 SimD9 SimE3 SimG1 SimG5 SimG6 SimC14 SimC15 SimD5 SimD7 SimF6 SimF8 RollbackLaws RollbackDirsLaws.
+From FB.Proofs Require Import ReplayLaws BuildFileLaws FrameLaws CleanLaws CoreLaws2 CoreLaws5 CoreLaws6 CoreLaws7 CoreNextDefs CoreNextThm ViewDefs ViewInit ViewXDefs ViewXRun ViewR2 ViewR3 ViewK3 ViewK4 ViewK8 HashMemoInv HashMemoRun SimA0 SimAMain SimC0 SimC12 SimC13 SimD4 SimD9 SimE3 SimG1 SimG5 SimG6 SimC14 SimC15 SimD5 SimD7 SimF6 SimF8 SimJ4 SimJ10 RollbackLaws RollbackDirsLaws.
 (* T1g: Model/BuildDirs.v and Model/CreatedFiles.v are equal to the translation of build_dirs.py / created_files.py
    (Gen/BookGen.v, regenerated on every run); a change of those sources that the model does not follow breaks this import *)
 From FB.Proofs Require BookGenLaws.
@@ -150,8 +150,9 @@ Proof. exact mech_commit_first_build_anycmp. Qed.
 
 (* the same for a LATER build, whose previous cache is in the class okc (what a committed build of this package writes):
    whole call, commit included (SimD5-9.v; the statement about directories given up by failed nested builds that
-   SimD9 left open is proved in SimE1-3.v: err_dead).  CmpOk old root (SimG1.v): an output may use HASH when the
-   previous cache has no servable record for its path; reads may use either mode (QueriesOkP, SimG5.v). *)
+   SimD9 left open is proved in SimE1-3.v: err_dead).  The class is okcH (SimJ4.v: okc with HASH comparison results
+   allowed in build_file records and recorded reads; decidable, okcHb_sound); outputs and reads of the program may use
+   either comparison mode (SimG1-7.v, SimJ1-10.v: hits served from HASH records, by the invariant HInv). *)
 Theorem C01_mechanism_later_build_whole_build : forall (kp : kappa) (F : ftable) w cachefile nm vers svers root (P : path -> Prop) w' v,
   let old := old_cache_of (w_fs w) cachefile nm svers in
   let rr := ref_build (w_fs w) cachefile (prev_of_cache old) (w_clock w) (w_nextid w) root in
@@ -161,14 +162,14 @@ Theorem C01_mechanism_later_build_whole_build : forall (kp : kappa) (F : ftable)
   (* content / time *)
   kp_init kp (w_fs w) -> kp_new kp (w_clock w) ->
   (* the previous cache *)
-  cache_wf old -> faithful_cache kp F old svers -> okc (w_clock w) old ->
+  cache_wf old -> faithful_cache kp F old svers -> okcH (w_clock w) old ->
   old_ok old cachefile -> WfCache old -> cache_created_file old cachefile = false ->
   (* the world *)
   fs_wf (w_fs w) -> w_faults w = [] ->
   path_ok (dirname cachefile) = true -> isdir (w_fs w) cachefile = false -> (maxlen (w_fs w) < walk_fuel)%nat ->
   vdir (Build.start_world w cachefile old nm svers) (dirname cachefile) = true ->
   (* the program *)
-  AllTargets tgtP root -> NoNest [] root -> QueriesOkP root -> WfArgs root -> CmpOk old root ->
+  AllTargets tgtP root -> NoNest [] root -> QueriesOkP root -> WfArgs root ->
   TargetsClear old root -> TargetsApart old root ->
   (* the targets *)
   AllTargets P root -> (forall p, P p -> tgtP p) ->
@@ -178,7 +179,11 @@ Theorem C01_mechanism_later_build_whole_build : forall (kp : kappa) (F : ftable)
   run_build cachefile nm vers root w = (w', Done (inl v)) ->
   rr_outcome rr = inl v /\
   forall p, p <> cachefile -> node_equiv (lookup (w_fs w') p) (lookup (rr_tree rr) p).
-Proof. exact mech_commit3_h. Qed.
+Proof. exact mech_commit3_hash. Qed.
+
+(* the class okcH contains okc *)
+Theorem C01_okc_in_okcH : forall c0 old, okc c0 old -> okcH c0 old.
+Proof. exact okc_okcH. Qed.
 
 (* THE CLASS IS PRESERVED (Proofs/SimD5-7.v, SimF1-6.v): the cache at the end of the root function of a build whose
    previous cache is in okc is again in okc (for programs in which no function catches the exception of a nested call),
